@@ -102,6 +102,65 @@ type caseT struct {
 	Body  M      `json:"body"`
 	IsPtr bool   `json:"isptr"`
 	Src   any    `json:"src"`
+	Entry string `json:"entry"`
+	Fns   []M    `json:"fns"`
+}
+
+var (
+	typeFunc0 = reflect.TypeOf((func() interface{})(nil))
+	typeFuncI = reflect.TypeOf((func(int) int)(nil))
+)
+
+// sigTypes gives the Go parameter types of a generated signature (the last one of a variadic
+// signature as the slice type reflect.FuncOf wants); "func0" is func() interface{}, "func" func(int) int.
+func sigTypes(sig M) ([]reflect.Type, bool, error) {
+	variadic, _ := sig["variadic"].(bool)
+	tys, _ := sig["ins"].([]any)
+	var ins []reflect.Type
+	for i, ty := range tys {
+		var t reflect.Type
+		var err error
+		m, _ := ty.(map[string]any)
+		switch m["k"] {
+		case "func0":
+			t = typeFunc0
+		case "func":
+			t = typeFuncI
+		default:
+			t, err = bridge.TypeOf(ty)
+		}
+		if err != nil {
+			return nil, false, err
+		}
+		if variadic && i == len(tys)-1 {
+			t = reflect.SliceOf(t)
+		}
+		ins = append(ins, t)
+	}
+	return ins, variadic, nil
+}
+
+// arrived projects what a Go callee received for a parameter of type t; a function is called
+// (with 3 when it takes an argument) and stands for its result.
+func arrived(a reflect.Value, t reflect.Type) any {
+	if t.Kind() == reflect.Func {
+		var in []reflect.Value
+		if t.NumIn() == 1 {
+			in = []reflect.Value{reflect.ValueOf(3)}
+		}
+		out := a.Call(in)
+		return bridge.ProjectAs(out[0], t.Out(0))
+	}
+	return bridge.ProjectAs(a, t)
+}
+
+func observeJS(vm *otto.Otto, expr string) any {
+	var jsv any
+	r, e := vm.Run("JSON.stringify(OBS(" + expr + "))")
+	if e != nil || json.Unmarshal([]byte(r.String()), &jsv) != nil {
+		return M{"unobservable": fmt.Sprint(e)}
+	}
+	return jsv
 }
 
 func runCase(vm *otto.Otto, l *line) (any, string, error) {
@@ -375,6 +434,112 @@ func runCase(vm *otto.Otto, l *line) (any, string, error) {
 			view = M{"unobservable": fmt.Sprint(e)}
 		}
 		return M{"thr": thr, "same": same, "js": view, "go": bridge.DocForm(d)}, stmt, nil
+	case "graph":
+		// a script value with shared / cyclic containers through one entry of the script -> Go conversion
+		it, _ := bridge.ElemType("iface")
+		var got []any
+		called := 0
+		var elem func() reflect.Value
+		target := ""
+		if strings.HasPrefix(c.Entry, "p_") {
+			ins, variadic, err := sigTypes(c.Sig)
+			if err != nil {
+				return nil, src, err
+			}
+			fn := reflect.MakeFunc(reflect.FuncOf(ins, nil, variadic), func(args []reflect.Value) []reflect.Value {
+				called++
+				got = []any{}
+				for i, a := range args {
+					got = append(got, arrived(a, ins[i]))
+				}
+				return nil
+			})
+			if err := vm.Set("P", fn.Interface()); err != nil {
+				return nil, src, err
+			}
+		} else {
+			var err error
+			switch c.Entry {
+			case "w_slice":
+				sl := []interface{}{1, 2}
+				elem, target = func() reflect.Value { return reflect.ValueOf(sl).Index(0) }, "c[0]"
+				err = vm.Set("c", sl)
+			case "w_array":
+				ar := &[2]interface{}{1, 2}
+				elem, target = func() reflect.Value { return reflect.ValueOf(ar).Elem().Index(0) }, "c[0]"
+				err = vm.Set("c", ar)
+			case "w_map":
+				mp := map[string]interface{}{"a": 1}
+				elem, target = func() reflect.Value { return reflect.ValueOf(mp).MapIndex(reflect.ValueOf("a")) }, "c['a']"
+				err = vm.Set("c", mp)
+			case "w_struct":
+				t := &bridge.T{}
+				elem, target = func() reflect.Value { return reflect.ValueOf(t).Elem().FieldByName("Any") }, "c.Any"
+				err = vm.Set("c", t)
+			default:
+				err = fmt.Errorf("unknown entry %q", c.Entry)
+			}
+			if err != nil {
+				return nil, src, err
+			}
+		}
+		thr := runStmt(vm, wrap(src))
+		if elem != nil {
+			obs := M{"thr": thr}
+			if ev := elem(); ev.IsValid() {
+				obs["elem"] = bridge.ProjectAs(ev, it)
+			} else {
+				obs["elem"] = M{"k": "missing"}
+			}
+			obs["js"] = observeJS(vm, target)
+			return obs, src, nil
+		}
+		if thr != "" {
+			return M{"thr": thr}, src, nil
+		}
+		if called != 1 {
+			return M{"thr": "", "called": called}, src, nil
+		}
+		return M{"thr": "", "g": got}, src, nil
+	case "reent":
+		// script code run by the conversion of an argument calls bridged functions again: every
+		// activation records what arrived (in the order of completion) and returns its serial number
+		log := []any{}
+		byGo := map[string]reflect.Value{}
+		for _, f := range c.Fns {
+			name, _ := f["name"].(string)
+			goid, _ := f["go"].(string)
+			fn, ok := byGo[goid]
+			if !ok {
+				sig, _ := f["sig"].(map[string]any)
+				ins, variadic, err := sigTypes(sig)
+				if err != nil {
+					return nil, src, err
+				}
+				fn = reflect.MakeFunc(reflect.FuncOf(ins, []reflect.Type{reflect.TypeOf(0)}, variadic), func(args []reflect.Value) []reflect.Value {
+					got := []any{}
+					for i, a := range args {
+						got = append(got, arrived(a, ins[i]))
+					}
+					log = append(log, M{"f": goid, "g": got})
+					return []reflect.Value{reflect.ValueOf(len(log))}
+				})
+				byGo[goid] = fn
+			}
+			if err := vm.Set(name, fn.Interface()); err != nil {
+				return nil, src, err
+			}
+		}
+		if _, err := vm.Run("RES = [];"); err != nil {
+			return nil, src, err
+		}
+		thr := runStmt(vm, wrap(src))
+		var res any
+		r, e := vm.Run("JSON.stringify(RES)")
+		if e != nil || json.Unmarshal([]byte(r.String()), &res) != nil {
+			res = M{"unobservable": fmt.Sprint(e)}
+		}
+		return M{"thr": thr, "log": log, "res": res}, src, nil
 	case "back":
 		st, err := bridge.StructOfForm(c.Src)
 		if err != nil {
@@ -834,8 +999,8 @@ func cfg(c *core.Ctx, mode string, maxLen int, wide bool) string {
 	if wide {
 		w = "TRUE"
 	}
-	s := fmt.Sprintf("CONSTANTS\n OpenDev = %s\n Tier = %q\n Mode = %q\n MaxLen = %d\n Wide = %s\nINIT Init\nNEXT Next\nVIEW View\nCHECK_DEADLOCK FALSE\n",
-		core.TLASet(c.Findings.OpenIDs()), c.Tier, mode, maxLen, w)
+	s := fmt.Sprintf("CONSTANTS\n OpenDev = %s\n Tier = %q\n Mode = %q\n MaxLen = %d\n Wide = %s\n Seed = %d\nINIT Init\nNEXT Next\nVIEW View\nCHECK_DEADLOCK FALSE\n",
+		core.TLASet(c.Findings.OpenIDs()), c.Tier, mode, maxLen, w, ((c.Seed%1000)+1000)%1000)
 	if mode == "cases" {
 		return s + "INVARIANT Emit\n"
 	}
@@ -945,7 +1110,7 @@ func Check(c *core.Ctx) (map[string]any, []string, error) {
 				b := make([]byte, len(p))
 				copy(b, p)
 				kmu.Lock()
-				if r.mode == "cases" && len(keepCases) < 600 {
+				if r.mode == "cases" && len(keepCases) < 600 && (bytes.Contains(b, []byte(`"fam":"param"`)) || bytes.Contains(b, []byte(`"fam":"arity"`))) {
 					keepCases = append(keepCases, b)
 				}
 				if r.mode == "slice" && len(keepHist) < 300 {
